@@ -151,6 +151,7 @@ def sim_run(binary, spec, gmp, idx, quiet=False, gogc=None, settle=False, hold=0
             for f in glob.glob(os.path.join(d, '*.sqlite3')):
                 os.remove(f)
         res['tail'] = log[-600:]
+        res['fail_line'] = next((l[-300:] for l in log.split('\n') if 'mismatch' in l.lower() or 'panic' in l.lower() or 'expected' in l.lower()), None)
         outs = [json.loads(l[7:]) for l in log.split('\n') if l.startswith('C05SIM ')]
 
         def rows_of(o):
@@ -261,6 +262,11 @@ def workloads(thorough):
          'flags': ['-timing', '-parallel', '-verify', '-disable-rtm']},
         {'name': 'mt64-emu-parallel', 'wl': 'mt', 'size': 64, 'rounds': 0, 'parallel': True, 'metrics': False,
          'flags': ['-parallel', '-verify', '-disable-rtm']},
+        # LDS-using kernels, >= 64 work-groups, emulation with the parallel engine and several Ps
+        {'name': 'mt256-lds-emu-parallel', 'wl': 'mt', 'size': 256, 'rounds': 0, 'parallel': True, 'metrics': False,
+         'par_gmps': [4, 16, 16, 4, 16, 8], 'flags': ['-parallel', '-verify', '-disable-rtm']},
+        {'name': 'mm128-lds-emu-parallel', 'wl': 'mm', 'size': 128, 'rounds': 0, 'parallel': True, 'metrics': False,
+         'par_gmps': [4, 16, 16, 4, 16, 8], 'flags': ['-parallel', '-verify', '-disable-rtm']},
     ]
     # concurrency inside the simulated system (one application thread, everything enqueued before the first drain)
     w += [
@@ -325,13 +331,27 @@ def compare_workload(binary, spec, thorough, pool):
     U  unsettled repetitions (ordinary host scheduling): value-only differences from the settled reference are the known
        hand-off race; different functional result / rows / command kinds are a VIOLATION."""
     if spec.get('parallel'):
-        runs = list(pool.map(lambda a: sim_run(binary, spec, a[1], a[0]), list(enumerate([1, 2, 16, 16]))))
-        bad = [r for r in runs if r['rc'] != 0]
+        # "With the parallel engine the functional results remain identical": one serial-engine run of the same workload
+        # is the reference; the parallel-engine repetitions run with several Ps (the failure modes are data races between
+        # components that execute in the same cycle, hence probabilistic: several repetitions)
+        serial = dict(spec, flags=[f for f in spec['flags'] if f != '-parallel'], name=spec['name'] + '-serialref')
+        gm = spec.get('par_gmps', [1, 2, 16, 16]) * (2 if thorough else 1)
+        futs = [pool.submit(sim_run, binary, serial, 4, 0)] + [pool.submit(sim_run, binary, spec, g, i + 1) for i, g in enumerate(gm)]
+        runs = [f.result() for f in futs]
+        ref, par = runs[0], runs[1:]
+        if ref['rc'] != 0:
+            return runs, 'violation', {'what': 'serial-engine reference run failed (exit %s)' % ref['rc'], 'cmd': ref['cmd'], 'tail': ref['tail']}, {}
+        bad = [r for r in par if r['rc'] != 0]
         if bad:
-            return runs, 'violation', {'what': 'run failed (exit %s)' % bad[0]['rc'], 'cmd': bad[0]['cmd'], 'tail': bad[0]['tail']}, {}
+            return runs, 'violation', {'what': 'functional result wrong or run failed with the parallel engine (exit %s) while the serial-engine '
+                                               'run of the same workload passes -verify; %d of %d parallel repetitions failed'
+                                               % (bad[0]['rc'], len(bad), len(par)),
+                                       'cmd_a': ref['cmd'], 'cmd_b': bad[0]['cmd'], 'tail': bad[0]['tail'],
+                                       'verification_messages': sorted({r.get('fail_line') or '' for r in bad})[:4],
+                                       'failing_gomaxprocs': sorted({r['gomaxprocs'] for r in bad})}, {}
         if len({functional(r) for r in runs}) > 1:
-            o = next(r for r in runs if functional(r) != functional(runs[0]))
-            return runs, 'violation', {'what': 'functional results differ with the parallel engine', 'cmd_a': runs[0]['cmd'], 'cmd_b': o['cmd']}, {}
+            o = next(r for r in par if functional(r) != functional(ref))
+            return runs, 'violation', {'what': 'functional results differ between the serial and the parallel engine', 'cmd_a': ref['cmd'], 'cmd_b': o['cmd']}, {}
         return runs, 'ok', None, {}
 
     perts = PERT_THOROUGH if thorough else PERT_QUICK
